@@ -1590,6 +1590,11 @@ func (it *Interp) step(st *state, ins ssa.Instruction, depth int) {
 		idx, ok := it.concreteInt(it.val(st, x.Index))
 		a, ok2 := it.val(st, x.X).(AggV)
 		if !ok || !ok2 {
+			if s, isStr := it.val(st, x.X).(StrV); isStr && ok && (s.Known || s.Sym) && (idx < 0 || (s.Known && idx >= len(s.S)) || (s.Sym && idx >= len(s.Chars))) {
+				it.unsup("index %d is out of range for the text in %s (run-time panic)", idx, x.Parent().String())
+				st.regs[x] = OpaqueV{"index"}
+				return
+			}
 			if s, isStr := it.val(st, x.X).(StrV); isStr && ok && s.Known && idx < len(s.S) {
 				st.regs[x] = it.constBV(uint64(s.S[idx]), 8)
 				return
